@@ -422,6 +422,16 @@ def run(ctx, rep):
                 continue
             n_sites += 1
             in_loop = any(cb in body_ for h_, body_ in cf.natural_loops())
+            if not in_loop and '{closure' in cf.path:
+                # the body of a generator: `iter::from_fn(|| .. parse_statement() ..)` is called once per statement by the loop
+                # of collect()
+                par_ = F.fns.get(cf.path.rsplit('::{closure', 1)[0])
+                if par_ is not None:
+                    for b2_, t2_ in par_.calls():
+                        if callee_name(t2_).endswith('from_fn::from_fn') and t2_['args']:
+                            d2_ = par_.def_rvalue(t2_['args'][0])
+                            if d2_ and d2_[0] == 'assign' and d2_[3]['k'] == 'aggregate' and d2_[3].get('closure') == cf.path:
+                                in_loop = True
             sealed = False
             if not in_loop:
                 # every way from the call to a successful return passes a mandatory consumer `skip(..)`
